@@ -965,10 +965,11 @@ def check_C11(tier, seed, replay):
         for n in (255, 256, 257, 300):
             longs.append("a" * n + "\u00e9b\ncd")            # a long line
             longs.append("\u9053" * n + "b")
+        longs.append("y" * 66000 + "\u00e9z\nab")            # columns beyond 65535
         if tier != "quick":
             longs += ["\n" * 65536 + "ab", "y" * 65536 + "\nab", "z\n" * 70000 + "q"]
         for txt in longs:
-            for k in sorted({0, len(txt), len(txt) - 1, len(txt) - 2, len(txt) // 2, 256, 257, min(len(txt), 300)}):
+            for k in sorted({0, len(txt), len(txt) - 1, len(txt) - 2, len(txt) // 2, 256, 257, min(len(txt), 300), 65534, 65535, 65536, 66001}):
                 if 0 <= k <= len(txt):
                     extra.append(at(txt, k))
                     extra.append(at(txt, txt[:k].rfind("\n") + 1))     # the same line at its first column
